@@ -67,6 +67,9 @@ func runC13(p *Program, r *Result) {
 				fa, ok := st.Addr.(*ssa.FieldAddr)
 				return ok && fieldName(fa.X.Type(), fa.Field) == "err"
 			})
+			if len(bad) > 0 && latchesOwnError(p, flush) {
+				bad = nil // flushChunk records its failure in w.err itself
+			}
 			r.Check(len(bad) == 0, write.String(), callKey("flushChunk", i)+":sticky", r.pos(c), "the flush error is stored in w.err before it is returned", "a failed flush is returned without being remembered in w.err: a later Write/Close would continue after a write error")
 		}
 		// Close stores the flush result directly
@@ -74,6 +77,18 @@ func runC13(p *Program, r *Result) {
 		okc := false
 		for _, fs := range p.fieldStores(pkgStream+".Writer", "err") {
 			if fs.Fn == cls && short(ctb.Term(fs.Store.Val).String()) == "(*stream.Writer).flushChunk(Recv, true)" {
+				okc = true
+			}
+		}
+		if !okc {
+			// stored on the error edge (`if err := w.flushChunk(last); err != nil { w.err = err; ... }`)
+			// or by flushChunk itself
+			for _, fs := range p.fieldStores(pkgStream+".Writer", "err") {
+				if fs.Fn == cls && strings.HasPrefix(short(ctb.Term(fs.Store.Val).String()), "(*stream.Writer).flushChunk(Recv, true)") {
+					okc = true
+				}
+			}
+			if latchesOwnError(p, flush) {
 				okc = true
 			}
 		}
@@ -360,4 +375,48 @@ func checkReaderLatch(p *Program, r *Result, fn *ssa.Function) {
 		}
 		r.Check(ok, fn.String(), key, r.pos(ret), "the returned error was stored in the err field first", "the error "+t+" is returned without being remembered in the err field: the next Read would carry on after a failure")
 	}
+}
+
+// latchesOwnError: on every path of fn (a method of stream.Writer returning an error) that ends in
+// a return whose error is not known to be nil, that error has been stored in the receiver's err
+// field: the method records its own failure.
+func latchesOwnError(p *Program, fn *ssa.Function) bool {
+	if fn == nil || len(fn.Blocks) == 0 {
+		return false
+	}
+	ei := errorResultIndex(fn.Signature)
+	if ei < 0 {
+		return false
+	}
+	paths, ok := p.EnumPaths(fn.Blocks[0])
+	if !ok {
+		return false
+	}
+	n := 0
+	for _, pa := range paths {
+		if pa.End != "return" {
+			continue
+		}
+		ret := pa.Last.(*ssa.Return)
+		ev := stripConv(pa.Resolve(ret.Results[ei]))
+		if isNilConst(ev) {
+			continue
+		}
+		if isNil, known := pa.NilOnPath(ev, len(pa.Blocks)); known && isNil {
+			continue
+		}
+		n++
+		stored := false
+		for _, in := range pa.Instrs() {
+			if st, isSt := in.(*ssa.Store); isSt {
+				if fa, isFA := st.Addr.(*ssa.FieldAddr); isFA && fieldName(fa.X.Type(), fa.Field) == "err" && stripConv(pa.Resolve(st.Val)) == ev {
+					stored = true
+				}
+			}
+		}
+		if !stored {
+			return false
+		}
+	}
+	return n > 0
 }
